@@ -44,7 +44,14 @@ Live1 == [Base EXCEPT !.nparts = [t |-> 1], !.outcomes = { o \in AllOutcomes : o
 ConfigsQuick == {Three, Over}
 BaseS == [Base EXCEPT !.outcomes = O2]
 AsyncS == [Async EXCEPT !.outcomes = O2, !.close = FALSE]
-ConfigsFull == {BaseS, Seq2, Over, AsyncS, Three}
+\* BaseS itself (2 partitions x 2 concurrent calls x Close x cancellation) has more than 30 million distinct states
+\* (not completed in 10 minutes); the thorough tier covers its ingredients pairwise instead:
+BaseM == [BaseS EXCEPT !.nparts = [t |-> 1]]                 \* both calls, Close, cancellation, one partition
+BaseA == [Base EXCEPT !.nparts = [t |-> 1]]                  \* the same with every outcome class
+TwoP == [BaseS EXCEPT !.plan = ( 1 :> [g |-> 1, msgs |-> <<M(1, ""), M(2, ""), M(1, "")>>, cancellable |-> TRUE] )]   \* one call over two partitions
+TwoC == [BaseS EXCEPT !.plan = ( 1 :> [g |-> 1, msgs |-> <<M(1, "")>>, cancellable |-> FALSE]
+                              @@ 2 :> [g |-> 2, msgs |-> <<M(2, "")>>, cancellable |-> TRUE] )]             \* two calls over two partitions
+ConfigsFull == {BaseM, BaseA, TwoP, TwoC, Seq2, Over, AsyncS, Three}
 Live0 == [Base EXCEPT !.nparts = [t |-> 1], !.outcomes = O3,
           !.plan = ( 1 :> [g |-> 1, msgs |-> <<M(1, ""), M(1, "")>>, cancellable |-> FALSE]
                   @@ 2 :> [g |-> 2, msgs |-> <<M(2, "")>>, cancellable |-> FALSE] )]
